@@ -28,6 +28,7 @@ type Term struct {
 	Sub  []*Term
 	Fn   *ssa.Function
 	Note string
+	Tbl  map[int64]int64 // Kind index: the constant table being indexed (absent entries are zero)
 }
 
 func (t *Term) String() string {
@@ -358,6 +359,14 @@ func (tx *tableEx) term(v ssa.Value, row *PathRow, depth int) *Term {
 		case token.NOT:
 			return &Term{Kind: "not", Sub: []*Term{tx.term(x.X, row, depth+1)}}
 		case token.MUL:
+			// an element of a local constant table: `t := [...]uint8{A: 1, B: 2}; t[i]`
+			if ia, ok := x.X.(*ssa.IndexAddr); ok {
+				if al, ok := ia.X.(*ssa.Alloc); ok {
+					if tbl, ok := localConstTable(al); ok {
+						return &Term{Kind: "index", Sub: []*Term{tx.term(ia.Index, row, depth+1)}, Tbl: tbl}
+					}
+				}
+			}
 			if fa, ok := x.X.(*ssa.FieldAddr); ok {
 				if dom, kind := tx.domainOf(x); dom != nil {
 					return tx.atom("field:"+fieldName(fa), x, kind, dom)
@@ -432,6 +441,49 @@ func (tx *tableEx) term(v ssa.Value, row *PathRow, depth int) *Term {
 	return &Term{Kind: "opaque", Note: fmt.Sprintf("%T", v)}
 }
 
+// localConstTable: al is a local array every write to which stores a constant
+// at a constant index, and whose address goes nowhere else: the table.
+func localConstTable(al *ssa.Alloc) (map[int64]int64, bool) {
+	pt, ok := al.Type().Underlying().(*types.Pointer)
+	if !ok {
+		return nil, false
+	}
+	if _, isArr := pt.Elem().Underlying().(*types.Array); !isArr {
+		return nil, false
+	}
+	tbl := map[int64]int64{}
+	for _, r := range *al.Referrers() {
+		switch x := r.(type) {
+		case *ssa.DebugRef:
+		case *ssa.IndexAddr:
+			for _, u := range *x.Referrers() {
+				switch y := u.(type) {
+				case *ssa.Store:
+					k, ok1 := constInt(x.Index)
+					v, ok2 := constInt(y.Val)
+					if y.Addr != ssa.Value(x) || !ok1 || !ok2 {
+						return nil, false
+					}
+					tbl[k] = v
+				case *ssa.UnOp:
+					if y.Op != token.MUL {
+						return nil, false
+					}
+				case *ssa.DebugRef:
+				default:
+					return nil, false
+				}
+			}
+		case *ssa.Store:
+			// whole-array initialisation from a constant composite is not modelled
+			return nil, false
+		default:
+			return nil, false
+		}
+	}
+	return tbl, true
+}
+
 func (tx *tableEx) callTerm(c *ssa.Call, idx int, v ssa.Value, row *PathRow, depth int) *Term {
 	if bi, ok := c.Call.Value.(*ssa.Builtin); ok && (bi.Name() == "min" || bi.Name() == "max") && len(c.Call.Args) >= 1 {
 		t := &Term{Kind: "minmax", Note: bi.Name()}
@@ -491,6 +543,12 @@ func (tx *tableEx) eval(t *Term, as Assign, depth int) Val {
 		return Val{Kind: "nil"}
 	case "fresh":
 		return Val{Kind: "ref", Ref: "fresh:" + t.Note}
+	case "index":
+		iv := tx.eval(t.Sub[0], as, depth+1)
+		if iv.Kind != "int" {
+			return Val{Kind: "bad"}
+		}
+		return Val{Kind: "int", K: t.Tbl[iv.K]}
 	case "minmax":
 		var best Val
 		for i, sub := range t.Sub {
